@@ -263,9 +263,20 @@ class CallMixin:
         if ci is not None:
             if cname in self.cfg.summaries:
                 pos = list(args.pos)
-                if not args.static() or args.kw:
-                    raise Unsupported('keyword/dynamic args to summarised constructor ' + cname)
-                return self.state_call(st, self.cfg.summaries[cname], pos)
+                if not args.static():
+                    raise Unsupported('dynamic args to summarised constructor ' + cname)
+                init1 = self.repo.lookup_method(ci, '__init__')
+                if args.kw:
+                    params = [a.arg for a in init1.node.args.args][1:]
+                    vals = dict(zip(params, pos))
+                    vals.update(args.kw)
+                    defaults = init1.node.args.defaults
+                    for p_, d_ in zip(params[len(params) - len(defaults):], defaults):
+                        if p_ not in vals:
+                            vals[p_] = self.eval(d_, st, init1.module)[0][2]
+                    pos = [vals[p_] for p_ in params if p_ in vals]
+                outs = self.state_call(st, self.cfg.summaries[cname], pos)
+                return [(k, s2, sv_ref(v.v, 'inst:' + cname) if k == 'ok' else v) for k, s2, v in outs]
             init0 = self.repo.lookup_method(ci, '__init__')
             can_inline = (init0 is not None and init0.node.args.vararg is not None and args.dstar is None and args.star is not None
                           and len(args.pos) + 1 >= len(init0.node.args.args) and cname in self.cfg.inline_star_ctors)
